@@ -1,16 +1,18 @@
 SPECIFICATION Spec
 CONSTANTS
   Mode = "lattice"
-  Slice = "deferr"
+  Slice = "deferr5"
   MaxFields = 2
   MaxLen = 1
   Salts = {0}
   SetVals = {0}
+  MaxKw = 9
 INVARIANT TypeOK
 INVARIANT HashTableTotal
 INVARIANT BindConflictFree
 INVARIANT SignatureOK
 INVARIANT OrderLaws
 INVARIANT EqHashCoherent
-INVARIANT ImplVsRef
+INVARIANT ImplVsRefCfg
+INVARIANT ImplVsRefStep
 CHECK_DEADLOCK FALSE
